@@ -18,7 +18,9 @@ for d in sorted(glob.glob(V + '/refactors/C*-R*')):
     ap = subprocess.run(['git', '-C', RD, 'apply', d + '/patch.diff'], capture_output=True, text=True)
     res = {'applies': ap.returncode == 0, 'runs': {}}
     if ap.returncode == 0:
-        for pid in (props if allprops else [rid.split('-')[0]]):
+        extra = [x for x in _os.environ.get('PROPS', '').split(',') if x]   # PROPS=C01,C02: the own property plus these
+        own = rid.split('-')[0]
+        for pid in (props if allprops else [own] + [x for x in extra if x != own]):
             t0 = time.time()
             r = subprocess.run(['timeout', '1500', VD + '/bin/vcheck', '-repo', RD, '--tier', 'quick', pid], capture_output=True, text=True, cwd=VD)
             out = r.stdout
